@@ -205,6 +205,8 @@ def contexts_c07(prog) -> List[Dict[str, Any]]:
             for k in ks[:3]:
                 out.append({k: gen.KEY_VALUES.get(k, 0.0625)})
     out.append({"zz": 0.125})
+    if len(prog) <= 2:
+        out.append(dict(gen.WIDE_CONTEXT))  # 200 keys: more than any truncation threshold of the context summaries
     # a key that a node will (re)write, present beforehand with a value that is == to what will be written but of another type
     # (2 for 2.0, True for 1.0): the write is an update
     try:
@@ -290,7 +292,7 @@ def plan(tier: str):
     else:
         progs = gen.programs(ALPHA_FULL, [1, 2, 3])
         details, tzs = ["hash", "repr", "context", "all", "hash,repr", "hash,context", "repr,context"], TZS
-    progs = list(progs) + list(SAME_FAMILY_PROGS) + list(gen.MENU_PROGS)
+    progs = list(progs) + list(SAME_FAMILY_PROGS) + list(gen.MENU_PROGS) + list(gen.LONG_PROGS)
     # programs that cannot even be constructed carry no SER: keep a few, drop the bulk
     progs = [p for p in sorted(set(progs)) if sum(gen.SYMBOLS[s]["kind"] == "invalid" for s in p) == 0 or len(p) == 1]
     jobs = []
